@@ -184,7 +184,7 @@ func pluginCase(g *gen, dist map[string]int) (string, []map[string]string, error
 			if resp.Error != "" {
 				return "", nil, fmt.Errorf("plugin case: NewProxy refused: %s", resp.Error)
 			}
-		case <-time.After(3 * time.Second):
+		case <-time.After(respWait):
 			return "", nil, fmt.Errorf("plugin case: no NewProxyResp")
 		}
 		ops = append(ops, fmt.Sprintf("SRegister %s %s %s %s %s", hx.HxS(owner.p.RunID), kindCoq(r.kind), hx.HxS(r.name), hx.HxS(r.sk), coqStrs(r.allow)))
@@ -212,7 +212,7 @@ func pluginCase(g *gen, dist map[string]int) (string, []map[string]string, error
 					resp = nhErrClass(rr.Error)
 				case st := <-startedC:
 					var sm msg.NatHoleSid
-					_ = st.conn.SetReadDeadline(time.Now().Add(time.Second))
+					_ = st.conn.SetReadDeadline(time.Now().Add(respWait))
 					e := msg.ReadMsgInto(st.conn, &sm)
 					st.conn.Close()
 					notified = e == nil && st.s == owner && st.m.ProxyName == r.name
@@ -241,7 +241,7 @@ func pluginCase(g *gen, dist map[string]int) (string, []map[string]string, error
 			}
 			_ = msg.WriteMsg(vc, &msg.NewVisitorConn{RunID: vs.p.RunID, ProxyName: r.name, SignKey: sign, Timestamp: ts})
 			var resp msg.NewVisitorConnResp
-			_ = vc.SetReadDeadline(time.Now().Add(3 * time.Second))
+			_ = vc.SetReadDeadline(time.Now().Add(respWait))
 			if err := msg.ReadMsgInto(vc, &resp); err != nil {
 				vc.Close()
 				return "", nil, fmt.Errorf("plugin case: no NewVisitorConnResp: %v", err)
@@ -376,7 +376,7 @@ func longSTCP() longRes {
 	}
 	t0 := time.Now()
 	got := make([]byte, len(earlyBytes))
-	_ = userSide.SetReadDeadline(time.Now().Add(5 * time.Second))
+	_ = userSide.SetReadDeadline(time.Now().Add(respWait))
 	_, e := io.ReadFull(userSide, got)
 	r.early = e == nil && string(got) == earlyBytes
 	// the user stays idle; the visitor is waiting for bytes from the server when the stream turns ten seconds old
@@ -390,7 +390,7 @@ func longSTCP() longRes {
 		if err != nil && r.late {
 			r.err = fmt.Errorf("fake frps: %v", err)
 		}
-	case <-time.After(3 * time.Second):
+	case <-time.After(respWait):
 	}
 	return r
 }
@@ -441,7 +441,7 @@ func longSUDP() longRes {
 	}
 	t0 := time.Now()
 	buf := make([]byte, 2048)
-	_ = user.SetReadDeadline(time.Now().Add(5 * time.Second))
+	_ = user.SetReadDeadline(time.Now().Add(respWait))
 	n, _, e := user.ReadFromUDP(buf)
 	r.early = e == nil && string(buf[:n]) == earlyBytes
 	_ = user.SetReadDeadline(time.Now().Add(lateAfter + 4*time.Second))
@@ -453,7 +453,7 @@ func longSUDP() longRes {
 		if err != nil && r.late {
 			r.err = fmt.Errorf("fake frps: %v", err)
 		}
-	case <-time.After(3 * time.Second):
+	case <-time.After(respWait):
 	}
 	return r
 }
